@@ -81,7 +81,7 @@ pub struct Program {
 
 pub const HANDPICKED: &[&str] = &[
     "", "/", ".", "..", "a/./b", "/a//b/", "%2F", "%zz", "a&b=c", "//", "a//b", "a/b", "n", "1.0", "@", "?", "#", "a@b", "a?b#c",
-    "%41", "%", "+", " ", "É", "ǅ", "A_b.C", "a--b", "-", "_", "a b",
+    "%41", "%", "+", " ", "É", "ǅ", "A_b.C", "a--b", "-", "_", "a b", "a_É.b", "x.ǅǈ-y", "01.1", "1.01", "1.10", "1.9", "001", "0.0.1",
 ];
 
 pub fn garg() -> BoxedStrategy<String> {
